@@ -44,6 +44,18 @@ Qed.
 Lemma framed_result_fresh : forall h0 h L l, framed h0 h -> length h0 <= L -> rt h L l -> length h0 <= l.
 Proof. intros. eapply framed_reach_fresh; eauto. Qed.
 
+(* deepcopy's memo is a bijection between the objects it copied and their copies: two
+   references in the copy are the same object exactly when the originals were *)
+Theorem deepcopy_memo_bijective : forall h l h' m l',
+  wf h -> deepcopy_memo h l = Ok (h', m, l') ->
+  forall a a' b b', In (a, a') m -> In (b, b') m -> (a = b <-> a' = b').
+Proof.
+  intros h l h' m l' W H a a' b b' Ia Ib.
+  pose proof (deepcopy_memo_fun _ _ _ _ _ W H) as FU.
+  pose proof (cp_inj _ _ _ _ _ (deepcopy_memo_spec _ _ _ _ _ H)) as INJ.
+  split; intro; subst; [eapply FU|eapply INJ]; eauto.
+Qed.
+
 (* ------------------------------------------------------------------------- *)
 (* refinement + totality of the functional models *)
 
@@ -102,6 +114,30 @@ Proof.
   destruct (flood_nonoverlapping_positive vs pt D) as (N & P).
   exists h', L', (flood vs pt). split; [exact H|]. split; [exact R|]. split; [eapply framed_list_at; eauto|].
   split; [exact N|exact P].
+Qed.
+
+(* C10's own domain asks for distinct timestamps; two positions holding the same object read
+   the same timestamp, so in that domain the elements are distinct objects whatever else is
+   shared, and the refinement needs no hypothesis about aliasing *)
+Lemma distinct_ts_distinct_objects : forall h ks vs,
+  evs_at h ks = Some vs -> NoDup (map ts vs) -> NoDup ks.
+Proof.
+  intros h ks vs H. apply evs_at_Forall2 in H. induction H as [|k v ks vs Hk F IH]; cbn [map]; intro ND.
+  - constructor.
+  - inversion ND as [|? ? NI ND']; subst. constructor; auto.
+    intro I. apply NI. clear -F I Hk. induction F as [|k2 v2 ks vs Hk2 F IH]; [destruct I|].
+    destruct I as [->|I]; [left; congruence|right; auto].
+Qed.
+
+Theorem flood_h_refines_distinct_ts : forall h L pt vs,
+  wf h -> list_at h L = Some vs -> NoDup (map ts vs) ->
+  exists h' L', flood_h h L pt = Ok (h', L') /\ list_at h' L' = Some (flood vs pt) /\ list_at h' L = Some vs.
+Proof.
+  intros h L pt vs W LA ND.
+  destruct (flood_h_refines h L pt vs W LA) as (h' & L' & H & R).
+  { intros p ks LL. unfold list_at in LA. rewrite LL in LA. eapply distinct_ts_distinct_objects; eauto. }
+  exists h', L'. split; auto. split; auto.
+  destruct (flood_h_framed _ _ _ _ _ H) as (F & _). eapply framed_list_at; eauto.
 Qed.
 
 (* ------------------------------------------------------------------------- *)
